@@ -349,6 +349,11 @@ func (g *Gen) hintAt(f *Frame, r retInfo, h *Clause, fn *ssa.Function, bindTop f
 			}
 		}
 	}
+	if ct := g.contract; ct != nil {
+		if note := g.bindRenamed(env, ct, []*Clause{h}, paramSet); note != "" {
+			g.notes = append(g.notes, fmt.Sprintf("hint %s: %s", h.Label, note))
+		}
+	}
 	return env.trBool(h.Expr), true
 }
 
